@@ -65,11 +65,11 @@ open NodisVerif.Proto (Key Rec Mode Ev Hold TxSt PState assoc erase put Tx)
 open NodisVerif.TxProg
 open NodisVerif.Proofs.Proto
 
-/-- the transitions that can be disabled at all: a mutex acquisition (`s.mu.RLock` a1 a10, `s.mu.Lock` a4 n2 d1 c8,
-    the record lock a8), the choice of the next call (init, idle), an allocation (a5, d3: the scheduler must offer
+/-- the transitions that can be disabled at all: a mutex acquisition (`s.mu.RLock` a1 a10 g4, `s.mu.Lock` a4 n2 d1 c8 g7,
+    the record lock a8 g2), the choice of the next call (init, idle), an allocation (a5, d3: the scheduler must offer
     a fresh id) and d2 (never disabled in a reachable state: `delKey_not_stuck`) -/
 def mayBlock : Pc → Bool
-  | .init | .idle | .a1 | .a10 | .a4 | .n2 | .d1 | .c8 | .a8 | .a5 | .d3 | .d2 => true
+  | .init | .idle | .a1 | .a10 | .a4 | .n2 | .d1 | .c8 | .a8 | .a5 | .d3 | .d2 | .g2 | .g4 | .g7 => true
   | _ => false
 
 /-- every other transition is always enabled: in particular nothing inside an `s.mu` section (except the two
